@@ -26,9 +26,9 @@ func init() {
 				Blocks:   32,
 				Procs:    16,
 				Rule: "case = one tree shape (beta in {0,250,600,900,1000,...}, built by a C01-style history or bulk New) with: Cursor(k) for EVERY key and for absent keys around every key; full forward (Min, Next...) and backward (Max, Prev...) sweeps with HasNext/HasPrev before each move; subtree checks at every node (everything through Left smaller, through Right larger, Cursor.Inorder == subtree keys ascending, early stop, Min/Max land on subtree extremes, Up after Left/Right returns); " +
-					"random walks (Next/Prev/Left/Right/Up/Min/Max/Clone, 200-2000 moves) of a population of up to 4 cursors with shadow positions, all cursors re-checked after every move; nil and invalidated cursors: every method a harmless no-op. " +
+					"random walks (Next/Prev/Left/Right/Up/Min/Max/Clone, 200-2000 moves) of a population of up to 4 cursors with shadow positions, all cursors re-checked after every move; sparse-observation walks (only Valid/Key looked at after each move, the Has* predicates asked occasionally and not re-asked before the next move); cursors looked up, the tree cloned, the original modified, and the clone checked through every cursor operation; nil and invalidated cursors: every method a harmless no-op. " +
 					"distinct = hash of (shape as parent vector, walk seed); non-trivial = the shape has depth >= 4 and the walks included a Next/Prev that climbed >= 2 ancestors",
-				Required:     []string{"shapes", "next_climb_ge2", "prev_climb_ge2", "clone_moves", "invalid_cursor_probes", "absent_key_probes", "shapes_depth_ge10", "walk_moves", "empty_trees", "shapes_with_wide_comparator"},
+				Required:     []string{"shapes", "next_climb_ge2", "prev_climb_ge2", "clone_moves", "invalid_cursor_probes", "absent_key_probes", "shapes_depth_ge10", "walk_moves", "empty_trees", "shapes_with_wide_comparator", "sparse_walk_moves", "clone_after_lookup_checks"},
 				Assumptions:  []string{"set contents are taken from Tree.Inorder (property C01)", "the structure used as shadow model is itself read through the cursor API, and is accepted only if two independent readings agree and form a binary search tree over exactly the reference set"},
 				CoverPkgs:    []string{"github.com/creachadair/mds/stree"},
 				CoverAnchors: []string{"stree/cursor.go", "stree/stree.go:Cursor", "stree/stree.go:Root", "stree/node.go:pathTo"},
@@ -450,6 +450,129 @@ func (k *c03case) randomWalk(moves int) (climbed bool) {
 	return
 }
 
+// randomWalkSparse moves one cursor around and looks only at Valid/Key after
+// each move; HasNext/HasPrev/HasLeft/... are separate, occasional operations
+// and are not re-asked before the next move. (The dense walk asks every
+// predicate after every move, which would refresh anything a cursor remembers
+// between calls.)
+func (k *c03case) randomWalkSparse(moves int) {
+	n := len(k.ref)
+	if n == 0 {
+		return
+	}
+	pos := k.r.IntN(n)
+	c := k.cursorAt(pos)
+	k.walk = opLog{}
+	k.walk.add("c := Cursor(%d)  (sparse observation)", k.ref[pos].Key)
+	for m := 0; m < moves && !k.failed; m++ {
+		if pos < 0 {
+			pos = k.r.IntN(n)
+			c = k.cursorAt(pos)
+			k.walk.add("c = Cursor(%d)", k.ref[pos].Key)
+		}
+		op := k.r.IntN(12)
+		switch op {
+		case 0:
+			k.walk.add("Next")
+			c.Next()
+			pos = nextIdx(pos, n)
+		case 1:
+			k.walk.add("Prev")
+			c.Prev()
+			pos--
+		case 2:
+			k.walk.add("Left")
+			c.Left()
+			pos = k.nodes[pos].L
+		case 3:
+			k.walk.add("Right")
+			c.Right()
+			pos = k.nodes[pos].R
+		case 4:
+			k.walk.add("Up")
+			c.Up()
+			pos = k.nodes[pos].Parent
+		case 5:
+			k.walk.add("Min")
+			c.Min()
+			pos, _ = k.subtreeRange(pos)
+		case 6:
+			k.walk.add("Max")
+			c.Max()
+			_, pos = k.subtreeRange(pos)
+		case 7:
+			k.walk.add("HasNext")
+			if got := c.HasNext(); got != (pos+1 < n) {
+				k.fail("HasNext = %v at position %d of %d", got, pos, n)
+			}
+		case 8:
+			k.walk.add("HasPrev")
+			if got := c.HasPrev(); got != (pos > 0) {
+				k.fail("HasPrev = %v at position %d of %d", got, pos, n)
+			}
+		case 9:
+			k.walk.add("HasLeft/HasRight/HasParent")
+			nd := k.nodes[pos]
+			if c.HasLeft() != (nd.L >= 0) || c.HasRight() != (nd.R >= 0) || c.HasParent() != (nd.Parent >= 0) {
+				k.fail("HasLeft/HasRight/HasParent = %v %v %v at %v", c.HasLeft(), c.HasRight(), c.HasParent(), k.ref[pos])
+			}
+		default:
+			k.walk.add("Clone (continue on the clone)")
+			c = c.Clone()
+		}
+		k.c.Add("sparse_walk_moves", 1)
+		k.c.Step()
+		if k.failed {
+			return
+		}
+		if pos < 0 {
+			if c.Valid() {
+				k.fail("cursor should be invalid, is at %v", c.Key())
+			}
+			continue
+		}
+		if !c.Valid() || c.Key() != k.ref[pos] {
+			k.fail("after %s: cursor at %v (valid=%v), want %v", k.walk.ops[len(k.walk.ops)-1], c.Key(), c.Valid(), k.ref[pos])
+		}
+	}
+}
+
+// cloneAfterLookups: cursors are taken on the tree, the tree is cloned, the
+// original is then modified; the clone must still present the old contents
+// through every cursor operation (nothing looked up earlier may leak across).
+func (k *c03case) cloneAfterLookups() {
+	n := len(k.ref)
+	if n == 0 {
+		return
+	}
+	for i := 0; i < min(n, 6); i++ {
+		k.cursorAt(k.r.IntN(n))
+	}
+	kc := k.ref[k.r.IntN(n)].Key
+	k.t.Cursor(Elem{Key: kc}) // the most recent lookup
+	k.t.Min()
+	k.t.Max()
+	dup := k.t.Clone()
+	// modify the original: remove some keys around kc, add neighbours
+	for d := -3; d <= 3; d++ {
+		k.t.Remove(Elem{Key: kc + 2*d + 2})
+		k.t.Add(Elem{Key: kc + 2*d + 1, Tag: -50 - d})
+	}
+	k.t.Remove(Elem{Key: k.ref[0].Key})
+	k.t.Add(Elem{Key: k.ref[n-1].Key + 5, Tag: -60})
+	k2 := &c03case{c: k.c, r: k.r, t: dup, ref: k.ref, desc: k.desc + "; Cursor lookups, then Clone, then the original was modified: checking the clone"}
+	if k2.structure() {
+		k2.perKey()
+		if !k2.failed {
+			k2.sweeps()
+		}
+	}
+	k.c.Add("clone_after_lookup_checks", 1)
+	if k2.failed {
+		k.failed = true
+	}
+}
+
 func runC03(c *fw.Ctx) {
 	betas := []int{0, 250, 600, 900, 1000, 1000, 100, 999}
 	ncases := c.Pick(240, 4000)
@@ -494,6 +617,9 @@ func runC03(c *fw.Ctx) {
 					climbed = true
 				}
 			}
+			for w := 0; w < 3 && !k.failed; w++ {
+				k.randomWalkSparse(150 + r.IntN(c.Pick(500, 1500)))
+			}
 			_, depth := treeShape(k.t, identElem)
 			if climbed && depth >= 4 && !k.failed {
 				h := fw.NewH()
@@ -514,6 +640,12 @@ func runC03(c *fw.Ctx) {
 		})
 		if !ok {
 			c.FailKind("panic", map[string]any{"build": k.desc, "moves": k.walk.list()}, "panic: %v\n%s", pv, stack)
+		}
+		if ok && !k.failed && k.t != nil {
+			ok2, pv2, stack2 := fw.Try(func() { k.cloneAfterLookups() })
+			if !ok2 {
+				c.FailKind("panic", map[string]any{"build": k.desc, "phase": "clone after lookups"}, "panic: %v\n%s", pv2, stack2)
+			}
 		}
 	}
 }
